@@ -113,6 +113,44 @@ def ob_placement(h):
     h.check("starts_with_zero_duty", u.heat_flow == 0)
 
 
+# ---- UTILITY LISTS ------------------------------------------------------------------------------------
+
+
+def ob_utilities_list(h):
+    """_create_utilities_list: ordered hottest-first (hot) / coldest-first (cold), oriented, starting with ZERO duty."""
+    k = h.choice("utilities", [1, 2])
+    side = h.choice("side", ["Hot", "Cold"])
+    recs = []
+    for i in range(k):
+        kind = h.choice(f"u{i}_type", ["Hot", "Cold", "Both"])
+        ts, tt = h.real(f"u{i}_ts"), h.real(f"u{i}_tt")
+        h.assume(ts != tt)
+        recs.append(SimpleNamespace(name=f"U{i}", type=kind, active=h.choice(f"u{i}_active", [True, False]), t_supply=ts, t_target=tt,
+                                    dt_cont=h.real(f"u{i}_dt", lo=0), price=1.0, htc=1.0, heat_flow=h.real(f"u{i}_input_heat_flow")))
+    if k == 2:
+        h.assume(recs[0].t_supply != recs[1].t_supply)
+    was_active = [r.active for r in recs]
+    h.stub(dp, "get_value", lambda v: v)
+    coll, _ = dp._create_utilities_list(recs, utility_type=side)
+    out = list(coll._streams.values())
+    want = [r for r, a in zip(recs, was_active) if a and r.type in ("Both", side)]
+    h.check("one_stream_per_active_utility_of_that_side", len(out) == len(want))
+    for s in out:
+        r = next(x for x in want if x.name == s.name)
+        h.check("starts_with_zero_duty", s.heat_flow == 0)
+        if side == "Hot":
+            h.check("hot_utility_runs_from_its_higher_to_its_lower_temperature", And(h.eq(s.t_supply, smax(r.t_supply, r.t_target)), h.eq(s.t_target, smin(r.t_supply, r.t_target))))
+        else:
+            h.check("cold_utility_runs_from_its_lower_to_its_higher_temperature", And(h.eq(s.t_supply, smin(r.t_supply, r.t_target)), h.eq(s.t_target, smax(r.t_supply, r.t_target))))
+        h.check("keeps_its_contribution", h.eq(s.dt_cont, r.dt_cont))
+        h.check("is_not_a_process_stream", s.is_process_stream is False)
+    if len(out) == 2:
+        a, b = want[0], want[1]
+        first_is_a = out[0].name == a.name
+        hi_first = (a.t_supply > b.t_supply) if first_is_a else (b.t_supply > a.t_supply)
+        h.check("ordered_by_supply_temperature", hi_first if side == "Hot" else Not(hi_first))
+
+
 # ---- WINDOW -------------------------------------------------------------------------------------------
 
 
@@ -249,6 +287,8 @@ def obligations():
                    functions=[dp._complete_utility_data], max_paths=200000),
         Obligation("C03.default.placement", ob_placement, kind="proof", functions=[dp._create_default_utility, dp._add_default_utilities],
                    stubs=("pydantic UtilitySchema.model_validate",)),
+        Obligation("C03.utilities_list.b", ob_utilities_list, kind="bounded", bound="1..2 utility records of any type / activity, all values symbolic", functions=[dp._create_utilities_list],
+                   max_paths=100000),
         Obligation("C03.window", ob_window, kind="bounded", bound="tables of 2..5 rows, pinch on any row, both sides (path-complete over the pinch row)", functions=[ut._assign_utility]),
     ]
     base = Obligation("C03.assign.b", _ob_assign(4, 2), kind="bounded", functions=fa, max_paths=400000, timeout_ms=20000,
